@@ -282,6 +282,34 @@ def flowPath (codes : List Int) (g : FlowGrid) (outlet : Int) (nval : Nat) (star
   flowPathWith codes g outlet (isDiag g.ncols) nval start
 
 
+/-! ## where the property leaves the outcome open: flow cycles and capped walks
+
+The property only asks for "an error or a bounded result" on flow cycles. These three predicates are the
+model's own account of where that applies; the correspondence compares values everywhere else. -/
+
+/-- a flow cycle passes through the outlet (inlets removed): the search run with room for every cell of the
+grid still exhausts its buffers (`Props/C06.lean`: `cycleThroughOutlet_iff`) -/
+def cycleThroughOutlet (codes : List Int) (g : FlowGrid) (outlet : Int) (inlets : List Int) : Bool :=
+  match delineateArea codes g outlet inlets (g.nrows * g.ncols + 2) with
+  | .error .areaFull => true
+  | .error .bufferFull => true
+  | .error .outletFull => true
+  | _ => false
+
+/-- the downstream chain from `c` reaches a sink / exit within `n` cells -/
+def chainEnds (codes : List Int) (g : FlowGrid) : Nat → Int → Bool
+  | 0, _ => false
+  | n + 1, c => if downstreamCell codes g c < 0 then true else chainEnds codes g n (downstreamCell codes g c)
+
+/-- the downstream chain from a cell of the grid runs into a flow cycle: it has not ended after one cell
+more than the grid has -/
+def chainCyclic (codes : List Int) (g : FlowGrid) (start : Int) : Bool :=
+  validCell g.nrows g.ncols start && !chainEnds codes g ((g.nrows * g.ncols).toNat + 1) start
+
+/-- the flow-path walk from `start` used up all its `nval` iterations (neither the outlet nor an exit met) -/
+def flowPathCapped (codes : List Int) (g : FlowGrid) (outlet : Int) (nval : Nat) (start : Int) : Bool :=
+  (fpLoop codes g outlet (isDiag g.ncols) nval { ipath := 0, up := start, down := -1, steps := [] }).ipath == nval
+
 /-! ## the Python wrapper around `c_delineate_area`, and the `Catchment` object as a state machine -/
 
 /-- `idxcells = -1*np.ones(nval)` after the kernel wrote `area` into its first entries -/
